@@ -17,7 +17,7 @@ from pathlib import Path
 
 from ..core import Family
 from ..sim.client_storefault import store_fault
-from .c03 import CA_FIRST, CERT_FP, CERTS, HOSTS, SHM, Runner, expected_steps, sem, spell, variant_id
+from .c03 import CA_FIRST, CERT_FP, CERTS, DOTTED_FIRST, HOSTS, SHM, TWIN_PAIRS, Runner, cert_desc, expected_steps, sem, spell, variant_id
 
 ID = "C11"
 READY = True
@@ -60,13 +60,29 @@ MODES = ["eager", "lazy", "never"]
 #               verify.  With "env"/"ctx" the peers present CA-issued certificates (indices CA_FIRST..): the impostor's chain is fine
 #   drop        the connection that is (rightly) sent the request is dropped before any answer byte: "close" (FIN), "close_notify",
 #               "reset"; behind it an impostor's script is queued on the same port (another certificate, reads eagerly)
+#   twin        the two certificates of the scenario (the pinned one and the one presented instead; the impostor behind a dropped
+#               connection) are a certificate and its LOOK-ALIKE (sim/client_pki.py): another DER around the same issuer name +
+#               serial number, or around the same key.  `cert` is then one of the pair, the "other" certificate its partner
+#   life        how the application holds the client object (it is an async context manager): "with" = the call is made inside
+#               `async with client:`; "after-with" = a block was entered and left, then the client is used bare; "reentered" = a
+#               block was left and a second one entered; "overlap" = ANOTHER coroutine's `async with client:` block on the same
+#               object is left while ours is open, then the call is made
+#   host        may also be a further spelling of a name: look-alike names and absolute DNS names with a trailing dot
+#               ("localhost."); pins are made under the spelling the URL uses
 WARMS = [None, "other-port", "other-host"]
+LIVES = [None, "with", "after-with", "reentered", "overlap"]
+TWIN_PARTNER = {a: b for pr in TWIN_PAIRS for a, b in (pr, pr[::-1])}
+SPELLED_HOSTS = [3, 4] + list(range(DOTTED_FIRST, len(HOSTS)))
 VSSLS = [None, "env", "ctx", "flag"]
 DROPS = [None, "close", "close_notify", "reset"]
 
 
-def other_cert(c: int) -> int:
-    """a different certificate of the same kind (self-signed 0..2 / CA-issued CA_FIRST..)"""
+def other_cert(c: int, twin: bool = False) -> int:
+    """a different certificate of the same kind (self-signed 0..2 / CA-issued CA_FIRST..); twin: the look-alike partner of c"""
+    if twin:
+        return TWIN_PARTNER[c]
+    if c >= CA_FIRST + 3:
+        return CA_FIRST if CERTS[c].startswith("tw_serial_ca") else (c + 1) % 3
     return CA_FIRST + (c - CA_FIRST + 1) % 3 if c >= CA_FIRST else (c + 1) % 3
 
 PIN_VIAS = ["trust", "import", "import-0", "import-1", "import-2", "legacy"]
@@ -105,7 +121,7 @@ class Scenarios(Family):
 
         def extra(sit, op):
             """the further dimensions, compatible with the situation"""
-            d = {"warm": None, "chain_same": False, "pin_via": "trust", "fault": None, "vssl": None, "drop": None}
+            d = {"warm": None, "chain_same": False, "pin_via": "trust", "fault": None, "vssl": None, "drop": None, "twin": False, "life": None}
             r = rng.random()
             if r < 0.25:
                 d["warm"] = rng.choice(WARMS[1:])
@@ -123,6 +139,20 @@ class Scenarios(Family):
                         d["pin_via"] = "import"                      # the CA-issued certificates have no spelled variants
             if sit in ("unpinned", "pinned") and not d["fault"] and rng.random() < 0.3:
                 d["drop"] = rng.choice(DROPS[1:])
+            if rng.random() < 0.15:
+                d["twin"] = True
+                ca = d["vssl"] in ("env", "ctx")
+                d["cert"] = rng.choice([c for c in TWIN_PARTNER if (CERTS[c].startswith(("ca_", "tw_serial_ca"))) == ca])
+                if d["pin_via"].startswith("import-"):
+                    d["pin_via"] = "import"                          # the look-alikes have no spelled variants
+            if rng.random() < 0.2:
+                d["life"] = rng.choice(LIVES[1:])
+            if rng.random() < 0.12:
+                d["host"] = rng.choice(SPELLED_HOSTS)
+                if d["vssl"] in ("env", "ctx"):
+                    d["vssl"] = "flag"                               # the CA-issued certificates do not name these spellings
+                    d.pop("cert", None)
+                    d["twin"] = False
             return d
 
         def fix(c):
@@ -153,11 +183,26 @@ class Scenarios(Family):
             for drop in DROPS[1:]:
                 for sit in ("unpinned", "pinned"):
                     wit.append({"situation": sit, "op": op, "drop": drop})
+            for life in LIVES[1:]:
+                for sit in ("pinned", "changed", "changed-after-ok"):
+                    wit.append({"situation": sit, "op": op, "life": life})
+            for host in SPELLED_HOSTS:
+                for sit in ("pinned", "changed", "changed-after-ok"):
+                    wit.append({"situation": sit, "op": op, "host": host, "pin_via": PIN_VIAS[len(wit) % 2]})
+            for c in sorted(TWIN_PARTNER):
+                ca = CERTS[c].startswith(("ca_", "tw_serial_ca"))
+                for sit in ("changed", "changed-after-ok", "pinned"):
+                    w = {"situation": sit, "op": op, "twin": True, "cert": c, "pin_via": PIN_VIAS[len(wit) % 2]}
+                    if ca:
+                        w["vssl"] = ("env", "ctx")[len(wit) % 2]
+                    if sit == "pinned":
+                        w["drop"] = DROPS[1 + len(wit) % 3]
+                    wit.append(w)
         for i, wcase in enumerate(self.share(wit)):
             count += 1
             base = {"tofu": True, "mode": MODES[i % 3], "cert": [0, 1, 2, 4, 5][i % 5], "size": 1000 if wcase["op"] == "upload" else 0,
                     "token": "s3cr3t-token", "host": i % 3, "cseed": i, "warm": None, "chain_same": False, "pin_via": "trust", "fault": None,
-                    "vssl": None, "drop": None}
+                    "vssl": None, "drop": None, "twin": False, "life": None}
             base.update(wcase)
             yield base
         # systematic part: situation x operation x reading mode, a different random half of the grid in every shard
@@ -217,7 +262,7 @@ class Scenarios(Family):
         elif sit == "changed-after-ok" or not self.prepinned_other(case):
             return None
         else:
-            pc = other_cert(case["cert"])
+            pc = other_cert(case["cert"], case.get("twin"))
         via = case.get("pin_via", "trust")
         return pc, (variant_id(pc, int(via[-1])) if via.startswith("import-") else CERT_FP[pc])
 
@@ -271,7 +316,7 @@ class Scenarios(Family):
         # what the port would show to one more connection: an impostor with another certificate that reads at once
         extra_scripts = []
         if drop:
-            extra_scripts.append((target[1], other_cert(target[2]), [["read_request", 1.5], ["send", b"20 text/gemini\r\nimpostor\n"], ["close"]]))
+            extra_scripts.append((target[1], other_cert(target[2], case.get("twin")), [["read_request", 1.5], ["send", b"20 text/gemini\r\nimpostor\n"], ["close"]]))
 
         def mk_client():
             kw = {}
@@ -338,7 +383,7 @@ class Scenarios(Family):
                     assert tdb.import_toml(f) == (1, 0, 0)
             client = mk_client()
             if sit == "changed-after-ok":
-                other = other_cert(case["cert"])
+                other = other_cert(case["cert"], case.get("twin"))
                 first, _ = await R.call(client, "get", [[target[0], target[1], other, ""]])
                 R.take_logs()
                 if case["tofu"]:
@@ -356,7 +401,42 @@ class Scenarios(Family):
                 else:
                     tdb.trust(HOSTS[wk[0]], R.ports[wk[1]], R.w["certs"].x509(CERTS[wcert]))
             with store_fault(case.get("fault") if case["tofu"] else None, db):
+                return await in_life(client)
+
+        async def in_life(client):
+            life = case.get("life")
+            if not life:
                 return await main_call(client)
+            if life == "with":
+                async with client:
+                    return await main_call(client)
+            if life == "after-with":
+                async with client:
+                    pass
+                return await main_call(client)
+            if life == "reentered":
+                async with client:
+                    pass
+                async with client:
+                    return await main_call(client)
+            # "overlap": two coroutines share the client object, each inside its own `async with client:` block
+            entered, release = asyncio.Event(), asyncio.Event()
+
+            async def other_user():
+                async with client:
+                    entered.set()
+                    await release.wait()
+
+            t = asyncio.ensure_future(other_user())
+            try:
+                await entered.wait()
+                async with client:
+                    release.set()
+                    await t                    # the other block has been left; ours is still open
+                    return await main_call(client)
+            finally:
+                release.set()
+                await asyncio.gather(t, return_exceptions=True)
 
         async def main_call(client):
             if case["op"] == "chain" and patch:
@@ -425,7 +505,7 @@ class Scenarios(Family):
         if pin is not None:
             rows[(t[0], t[1])] = pin[1]
         elif sit == "changed-after-ok":
-            rows[(t[0], t[1])] = CERT_FP[other_cert(case["cert"])]
+            rows[(t[0], t[1])] = CERT_FP[other_cert(case["cert"], case.get("twin"))]
         wk = self.warm_key(case)
         if wk is not None:
             rows[wk] = CERT_FP[case["cert"]]
@@ -479,8 +559,9 @@ class Scenarios(Family):
         if should_fail(case):
             if len(peers) == n_hops and last["len"] > 0:
                 return ("bytes-before-verification",
-                        f"{case['situation']} certificate, {case['op']} ({case['mode']} peer; pin entered the store via {case.get('pin_via', 'trust')}; client also verifies the chain (verify_ssl=True): {case.get('vssl') or 'no'}): "
-                        f"verification cannot pass, yet the peer received {last['len']} application bytes beginning {last['head'][:70]!r}")
+                        f"{case['situation']} certificate, {case['op']} to {HOSTS[case['host']]!r} ({case['mode']} peer; pin made via {case.get('pin_via', 'trust')}; verify_ssl=True as well: {case.get('vssl') or 'no'}; "
+                        f"client object held: {case.get('life') or 'bare'}{'; presented ' + cert_desc(case['cert']) if case.get('twin') else ''}): "
+                        f"verification cannot pass, yet the peer got {last['len']} application bytes: {last['head'][:70]!r}")
             if res[0] == "ok":
                 return ("unverified-peer-answered", f"{case['situation']} certificate: the call returned a response {res}")
         else:
@@ -508,7 +589,7 @@ class Scenarios(Family):
         pin = self.pin_id(case)
         pin_fp = sem(pin[1]) if pin is not None else None
         if sit == "changed-after-ok":
-            pin_fp = CERT_FP[other_cert(case["cert"])]
+            pin_fp = CERT_FP[other_cert(case["cert"], case.get("twin"))]
         for idx, p in enumerate(q for q in obs["peers"][n_hops - 1:] if q.get("port", 1) == 1):
             if p["cert"] not in CERTS or not p["hs"]:
                 continue
@@ -518,13 +599,13 @@ class Scenarios(Family):
                 continue
             if pres != pin_fp and p["len"] > 0:
                 return ("bytes-to-peer-with-other-certificate",
-                        f"{case['op']} to a host:port whose pin is fingerprint {pin_fp} ({sit}; verify_ssl/CA: {case.get('vssl')}; first connection dropped: {case.get('drop')}): "
+                        f"{case['op']} to a host:port whose pin is fingerprint {pin_fp} ({sit}; verify_ssl/CA: {case.get('vssl')}; first connection dropped: {case.get('drop')}; client object used: {case.get('life') or 'bare'}): "
                         f"connection {idx + 1} of the call to that port presented certificate {p['cert']!r} (fingerprint {pres}) and received "
                         f"{p['len']} application bytes beginning {p['head'][:70]!r}; the call ended with {obs['result']}")
         return None
 
     def key(self, case, obs):
-        dims = "".join(f" {k}={case[k]}" for k in ("warm", "pin_via", "fault", "vssl", "drop") if case.get(k) and case.get(k) != "trust") + (" chain_same" if case.get("chain_same") and case["op"] == "chain" else "")
+        dims = "".join(f" {k}={case[k]}" for k in ("warm", "pin_via", "fault", "vssl", "drop", "twin", "life") if case.get(k) and case.get(k) != "trust") + (" host=dotted" if case["host"] >= DOTTED_FIRST else " host=lookalike" if case["host"] >= 3 else "") + (" chain_same" if case.get("chain_same") and case["op"] == "chain" else "")
         return f"{'on' if case['tofu'] else 'off'} {case['situation']} {case['op']} {case['mode'] if not dims else ''}{dims} -> {obs['result'][0]} rx={[min(p['len'], 1) for p in obs['peers']]}"
 
 
